@@ -36,7 +36,7 @@ fn fresh_sets(fw: &FactoryWorld) -> Vec<[AssetInfo; 2]> {
 
 fn decode(fw: &FactoryWorld, chunk: &[u64]) -> Vec<RegOp> {
     let mut o = Src::new(chunk);
-    match o.weighted(&[3, 4, 1]) {
+    match o.weighted(&[3, 4, 1, 1]) {
         0 => {
             // a burst of creations: registry sizes straddle the listing limits 10 and 30
             let mut sets = fresh_sets(fw);
@@ -69,13 +69,22 @@ fn decode(fw: &FactoryWorld, chunk: &[u64]) -> Vec<RegOp> {
             let d = if !used.is_empty() && o.chance(4, 5) { used[o.idx(used.len())].clone() } else { regs[o.idx(regs.len())].clone() };
             vec![RegOp::Register { denom: d, decimals: o.below(19) as u8 }]
         }
-        _ => {
+        2 => {
             // first registration of a so far unregistered denom
             let un: Vec<String> = fw.w.natives.iter().filter(|d| !fw.model.denoms.contains_key(*d)).cloned().collect();
             if un.is_empty() {
                 return vec![];
             }
             vec![RegOp::Register { denom: un[o.idx(un.len())].clone(), decimals: o.below(19) as u8 }]
+        }
+        _ => {
+            // (re-)registration of an upper-case LOOK-ALIKE of a registered denom: a different denom, so
+            // the registered one and every pair containing it must stay untouched
+            let regs: Vec<String> = fw.model.denoms.keys().filter(|d| d.to_uppercase() != **d).cloned().collect();
+            if regs.is_empty() {
+                return vec![];
+            }
+            vec![RegOp::Register { denom: regs[o.idx(regs.len())].to_uppercase(), decimals: o.below(19) as u8 }]
         }
     }
 }
@@ -172,6 +181,9 @@ fn play(cfg: &WorldCfg, next: &mut dyn FnMut(&FactoryWorld, usize) -> Option<Vec
                         }
                     }
                     classes.push(if first { "reg:first-registration" } else { "reg:re-registration" });
+                    if *denom != denom.to_lowercase() {
+                        classes.push("reg:look-alike-denom");
+                    }
                     if !first && affected > 0 {
                         nontrivial = true;
                         classes.push(match n_pairs {
@@ -229,9 +241,9 @@ pub fn suites() -> Vec<Suite> {
         thorough_cases: 150_000,
         run,
         direct: Some(direct),
-        must_hit: &["reg:first-registration", "reg:re-registration", "pos:first", "pos:second", "kind:native/native", "kind:native/cw20", "size:1-9", "size:11-30", "size:31+"],
+        must_hit: &["reg:first-registration", "reg:re-registration", "reg:look-alike-denom", "pos:first", "pos:second", "kind:native/native", "kind:native/cw20", "size:1-9", "size:11-30", "size:31+"],
     }]
 }
 
-pub const RULE: &str = "case = factory world (5-9 prefix-sharing denoms, some unregistered, 0-3 cw20 tokens) + history of <= 14 operations, each a burst of 1..40 fresh pair creations, a re-registration of a registered denom (4/5 biased to denoms that are in some pair) or a first registration; after EVERY single creation / registration: NativeTokenDecimals of every registered denom == model; for every registered pair factory.Pair.asset_decimals == pair.Pair{}.asset_decimals == model (new value in the position of the updated denom, everything else untouched); non-trivial = a re-registration with >= 1 affected pair; histogram tracks the registry size class (1-9, 10, 11-30, 31+), the position of the denom and the pair kind; distinct = hash of the tape";
+pub const RULE: &str = "case = factory world (5-9 prefix-sharing denoms, some unregistered, 0-3 cw20 tokens) + history of <= 14 operations, each a burst of 1..40 fresh pair creations, a re-registration of a registered denom (4/5 biased to denoms that are in some pair), a first registration, or the registration of an upper-case look-alike of a registered denom (a different coin); after EVERY single creation / registration: NativeTokenDecimals of every registered denom == model; for every registered pair factory.Pair.asset_decimals == pair.Pair{}.asset_decimals == model (new value in the position of the updated denom, everything else untouched); non-trivial = a re-registration with >= 1 affected pair; histogram tracks the registry size class (1-9, 10, 11-30, 31+), the position of the denom and the pair kind; distinct = hash of the tape";
 pub const ASSUMPTIONS: &[&str] = &["cw-multi-test chain model"];
